@@ -53,6 +53,8 @@ pub struct ListStyle {
     pub add_trailing_sep_single: bool,
     /// Whether a trailing separator is always needed.
     pub add_trailing_sep_always: bool,
+    /// Whether a trailing separator must not be added.
+    pub no_trailing_sep: bool,
     /// Whether can omit the delimiter if the list contains only one item.
     pub omit_delim_single: bool,
     /// Whether can omit the delimiter if the list is flat.
@@ -72,6 +74,7 @@ impl Default for ListStyle {
             add_delim_space: false,
             add_trailing_sep_single: false,
             add_trailing_sep_always: false,
+            no_trailing_sep: false,
             omit_delim_single: false,
             omit_delim_flat: false,
             omit_delim_empty: false,
@@ -350,7 +353,11 @@ impl<'a> ListStylist<'a> {
                             ends_with_line_comment,
                         } => {
                             seen_real_items += 1;
-                            inner += body + sep.clone() + after;
+                            inner += body;
+                            if !(sty.no_trailing_sep && seen_real_items == self.real_item_count) {
+                                inner += sep.clone();
+                            }
+                            inner += after;
                             // A line comment must be terminated before the closing delimiter.
                             if !sty.tight_delim || !is_last || ends_with_line_comment {
                                 inner += arena.hardline();
